@@ -19,7 +19,8 @@ CONSTANTS
   Types,        \* record types that can be stored
   Vals,         \* rdata values
   ValsOf(_),    \* type -> the values used for it (bounds TLC)
-  OpFamilies,   \* subset of {"W", "U", "M"}: write interface, ZoneUpdater, make_* (needs "W")
+  OpFamilies,   \* subset of {"W", "U", "M", "B"}: write interface, ZoneUpdater, make_* and
+                \* commit(true) (both need "W")
   Writers, Readers,
   MaxVer,       \* highest version number
   MaxOps,       \* write operations per behaviour (bounds TLC)
@@ -409,7 +410,7 @@ BumpNeeded(w) ==
   IN old # {} /\ (new = {} \/ new = old)
 BumpedSoa == {x + 1 : x \in LiveVals(store, current, Apex, "SOA")}
 CommitUpdateCurrent(w, bump) ==
-  /\ wst[w] = "open" /\ (bump => wkind[w] = "W")    \* ZoneUpdater always commits with commit(false)
+  /\ wst[w] = "open" /\ (bump => wkind[w] = "W" /\ "B" \in OpFamilies)   \* ZoneUpdater always uses commit(false)
   /\ LET doBump == bump /\ BumpNeeded(w)
          S1 == IF doBump THEN [store EXCEPT !.ent[Apex] = @ \cup {"SOA"},
                                             !.rr[Apex]["SOA"] = VUpdate(@, wnv[w], RS(BumpedSoa))]
